@@ -68,3 +68,12 @@ pub mod rs {
     pub uninterp spec fn succ(r: Runner) -> nat;
     }
 }
+
+verus! {
+/// R9 wrapper for `graph.files.all_ids()` (an `impl Iterator` built from Range::map, no Verus model): the ids 0..len in order
+#[verifier::external_body]
+pub fn vx_all_ids(files: &crate::graph::GraphFiles) -> (r: Vec<crate::graph::FileId>)
+    ensures r@.len() == files.by_id.vec@.len(), forall|i: int| 0 <= i < r@.len() ==> #[trigger] r@[i] == crate::graph::FileId(i as u32)
+{ unimplemented!() }
+}
+
